@@ -550,16 +550,49 @@ var r13Exceptions = map[string]string{
 	"(*GcsEmu).handleGcsNewObjectResume/byteRange.lo": "parsed from a token split on '-', so it cannot carry a sign; the only negative value is the -1 sentinel, which is tested explicitly before the slice expression",
 }
 
+// signCheckedIn: some fact establishes that a value of the taint closure is not negative.
+func signCheckedIn(facts []core.CondFact, closure map[ssa.Value]bool) bool {
+	for _, f := range facts {
+		l, op, r, ok := cmpNorm(f)
+		if !ok {
+			continue
+		}
+		if closure[l] {
+			if cst, ok := core.ConstInt(r); ok {
+				if (op == token.GEQ && cst >= 0) || (op == token.GTR && cst >= -1) || (op == token.EQL && cst >= 0) {
+					return true
+				}
+			}
+		}
+		if closure[r] {
+			if cst, ok := core.ConstInt(l); ok {
+				if (op == token.LEQ && cst >= 0) || (op == token.LSS && cst >= -1) || (op == token.EQL && cst >= 0) {
+					return true
+				}
+			}
+		}
+	}
+	return false
+}
+
 func R13(floor int, pkgs ...string) Rule {
 	return Rule{Name: "R13", Run: func(c *core.Ctx) {
 		nFlows := 0
+		type src struct {
+			v    ssa.Value
+			name string
+		}
 		for _, pkg := range pkgs {
-			for _, fn := range c.P.SrcFuncs(pkg) {
-				// sources in this function
-				type src struct {
-					v    ssa.Value
-					name string
-				}
+			fns := c.P.SrcFuncs(pkg)
+			// request integers handed to helpers: a helper parameter that receives a tainted
+			// argument is a source of the same name inside the helper (fix-point over calls)
+			paramSrc := map[*ssa.Function][]src{}
+			type callTaint struct {
+				call    ssa.CallInstruction
+				closure map[ssa.Value]bool
+			}
+			taintedCalls := map[*ssa.Parameter][]callTaint{}
+			localSources := func(fn *ssa.Function) []src {
 				var srcs []src
 				for _, b := range fn.Blocks {
 					for _, in := range b.Instrs {
@@ -570,6 +603,52 @@ func R13(floor int, pkgs ...string) Rule {
 						}
 					}
 				}
+				return append(srcs, paramSrc[fn]...)
+			}
+			for round, changed := 0, true; changed && round < 6; round++ {
+				changed = false
+				for _, fn := range fns {
+					byName := map[string][]ssa.Value{}
+					for _, s := range localSources(fn) {
+						byName[s.name] = append(byName[s.name], s.v)
+					}
+					for name, vs := range byName {
+						closure := taintClosure(vs)
+						for _, ci := range core.AllCalls(fn) {
+							if ci.Static == nil || ci.Static.Blocks == nil || core.PkgPathOf(ci.Static) != pkg {
+								continue
+							}
+							for ai, a := range ci.Common.Args {
+								if !closure[a] || ai >= len(ci.Static.Params) {
+									continue
+								}
+								pa := ci.Static.Params[ai]
+								known := false
+								for _, ps := range paramSrc[ci.Static] {
+									if ps.v == ssa.Value(pa) {
+										known = true
+									}
+								}
+								if !known {
+									paramSrc[ci.Static] = append(paramSrc[ci.Static], src{pa, name})
+									changed = true
+								}
+								dup := false
+								for _, ct := range taintedCalls[pa] {
+									if ct.call == ci.Instr {
+										dup = true
+									}
+								}
+								if !dup {
+									taintedCalls[pa] = append(taintedCalls[pa], callTaint{ci.Instr, closure})
+								}
+							}
+						}
+					}
+				}
+			}
+			for _, fn := range fns {
+				srcs := localSources(fn)
 				if len(srcs) == 0 {
 					continue
 				}
@@ -631,27 +710,31 @@ func R13(floor int, pkgs ...string) Rule {
 							continue
 						}
 						facts := core.FactsAtInstr(s.in)
-						lower := false
+						lower := signCheckedIn(facts, closure)
+						if !lower {
+							// the value arrived through a helper parameter: every call that passes a
+							// request integer may have checked its sign before the call
+							all, any := true, false
+							for _, v := range byName[name] {
+								pa, isParam := v.(*ssa.Parameter)
+								if !isParam {
+									all = false
+									continue
+								}
+								for _, ct := range taintedCalls[pa] {
+									any = true
+									if !signCheckedIn(core.FactsAtInstr(ct.call), ct.closure) {
+										all = false
+									}
+								}
+							}
+							lower = all && any
+						}
 						upper := !s.upper || s.x == nil
 						for _, f := range facts {
 							l, op, r, ok := cmpNorm(f)
 							if !ok {
 								continue
-							}
-							// lower bound against a constant
-							if closure[l] {
-								if cst, ok := core.ConstInt(r); ok {
-									if (op == token.GEQ && cst >= 0) || (op == token.GTR && cst >= -1) || (op == token.EQL && cst >= 0) {
-										lower = true
-									}
-								}
-							}
-							if closure[r] {
-								if cst, ok := core.ConstInt(l); ok {
-									if (op == token.LEQ && cst >= 0) || (op == token.LSS && cst >= -1) || (op == token.EQL && cst >= 0) {
-										lower = true
-									}
-								}
 							}
 							// upper bound against len of the same slice
 							if s.x != nil {
